@@ -199,7 +199,7 @@ def run(ctx):
             special = set(cdrv.special_bytes(built[0]["I"]))
             inputs = [cdrv.random_input(built[0]["m"], r2, maxlen=r2.choice([4, 10, 25]), special=special) for _ in range(8)] if len(Ps) == 3 else \
                      [cdrv.random_input(built[0]["m"], r2, maxlen=r2.choice([6, 25, 60, 250]), special=special, clean=(j % 2 == 1)) for j in range(40)]
-            inputs = [i for i in inputs if i]
+            inputs = [list(x) for x in gen.FEATURE_INPUTS.get(name, [])] + [i for i in inputs if i]
             obs = []
             for P in built:
                 # feature programs: every other input is fed one byte per call (the machine state then lives in the struct between bytes)
